@@ -25,7 +25,9 @@ func runC10(r *vhlib.Run) {
 	for _, c := range codecs() {
 		extra := 0
 		if c.Name == "flate" {
-			extra = 6 // corpus: dynamic blocks with a long end-of-block code that stop short of it (D10)
+			// corpus: dynamic blocks with a long end-of-block code that stop short of it (D10); streams
+			// that END in a large stored block (the last Read of the source fills the window directly)
+			extra = 12
 		}
 		if c.Name == "bzip2" {
 			extra = 8 // corpus: a dead prefix of an under-subscribed tree right before the end of the input (D11)
@@ -37,6 +39,9 @@ func runC10(r *vhlib.Run) {
 			}
 			if i >= n && c.Name == "flate" {
 				s = gen.Stream{Data: longEOBWitness(rng, (i-n)%3, 9+rng.Intn(7)), Kind: "long-eob-stops-short"}
+			}
+			if i >= n+6 && c.Name == "flate" {
+				s = storedTail(rng, i-n-6)
 			}
 			if i >= n && c.Name == "bzip2" {
 				long := 5 + rng.Intn(16)
@@ -305,4 +310,26 @@ func longEOBWitness(rng *rand.Rand, tail, eobLen int) []byte {
 	w.Align()
 	_ = rng
 	return w.Buf
+}
+
+// storedTail: a valid stream of stored blocks whose FINAL block is large (the decoder copies it
+// from the source straight into its window, so the source's last Read - possibly data together
+// with io.EOF - is seen by the decoder itself and not by a buffering layer).
+func storedTail(rng *rand.Rand, k int) gen.Stream {
+	var out, plain []byte
+	blk := func(n int, final bool) {
+		h := byte(0)
+		if final {
+			h = 1
+		}
+		out = append(out, h, byte(n), byte(n>>8), byte(^n), byte(^n>>8))
+		d := vhlib.RandBytes(rng, n)
+		out = append(out, d...)
+		plain = append(plain, d...)
+	}
+	for j := k % 3; j > 0; j-- {
+		blk([]int{0, 1, 5000, 40000, 65535}[rng.Intn(5)], false)
+	}
+	blk([]int{4096, 9000, 33000, 40000, 65535, 30000 + rng.Intn(35000)}[k%6], true)
+	return gen.Stream{Data: out, Plain: plain, Valid: true, Kind: "stored-tail"}
 }
